@@ -109,8 +109,7 @@ def run(res, prop, tier, seed, model_ok, search, n_quick, n_thorough, gen_opts=N
     jobs += [(prop, seed, i, gen_opts or {}, None) for i in range(n)]
     if not model_ok:
         res.notes.append("model driver did not build: correspondence skipped, oracle only")
-    with mp.Pool(min(16, os.cpu_count() or 4)) as pool:
-        outs = pool.map(_worker, jobs, chunksize=8)
+    outs = common.pmap(_worker, jobs, chunksize=8)
     penny = 0
     for o in outs:
         res.evaluations += 1
